@@ -13,6 +13,17 @@ Definition threshold_of (r : thr_rule) (x : Q) (l : list Q) : Q :=
 Definition mask_of (r : thr_rule) (x : Q) (l : list Q) : list bool :=
   map (fun v => mask_cell v (threshold_of r x l)) (x :: l).
 
+(* evaluation-friendly variants used by the correspondence (Proofs/C18.v: equal to the
+   specification): the threshold is computed once, and Otsu only when the rule asks for it *)
+Definition threshold_eval (r : thr_rule) (x : Q) (l : list Q) : Q :=
+  match r with
+  | ThrOtsu => threshold_of r x l
+  | _ => tau r (lmin x l) (lmax x l) (lmean x l) 0
+  end.
+
+Definition mask_eval (r : thr_rule) (x : Q) (l : list Q) : list bool :=
+  let t := threshold_eval r x l in map (fun v => mask_cell v t) (x :: l).
+
 Section Pipeline.
   Variable cand : Type.                          (* a located spherical droplet *)
   Variable locate_mask : list bool -> list cand.
